@@ -241,6 +241,50 @@ func c11run(c *runner.Ctx) runner.Result {
 		}
 		res.Violation(detail, wit())
 	}
+	// bounds far outside the data (and outside what an int64 of nanoseconds can hold): the customary
+	// "open end" 9999-12-31, ends in 2300 / 2600, starts in 1000 / 1600
+	farEnds := []time.Time{time.Date(9999, 12, 31, 23, 59, 59, 0, time.UTC), time.Date(2300, 1, 1, 0, 0, 0, 0, time.UTC), time.Date(2600, 6, 1, 0, 0, 0, 0, time.UTC), time.Date(2262, 4, 12, 0, 0, 0, 0, time.UTC)}
+	farStarts := []time.Time{time.Date(1000, 1, 1, 0, 0, 0, 0, time.UTC), time.Date(1600, 1, 1, 0, 0, 0, 0, time.UTC), time.Date(1677, 9, 20, 0, 0, 0, 0, time.UTC)}
+	for q := 0; q < 4; q++ {
+		near := B[rq.Intn(len(B))]
+		var st, en time.Time
+		var exp *ms.Table
+		what := ""
+		if q%2 == 0 {
+			st, en = tm(near), farEnds[rq.Intn(len(farEnds))]
+			exp = all.Select(idealIdx(all, h.Variable, h.D, near, 1<<62))
+			what = "far end"
+		} else {
+			st, en = farStarts[rq.Intn(len(farStarts))], tm(near)
+			exp = all.Select(idealIdx(all, h.Variable, h.D, -(1 << 62), near))
+			what = "far start"
+		}
+		if h.costly() && q >= 2 {
+			break // year-long scans on 1Sec..30Sec buckets: two are enough
+		}
+		var act *ms.Table
+		var qerr error
+		pn := ms.Recover(func() { act, qerr = in.Query(h.Key(), st, en, 0, false, nil) })
+		res.Count("queries", 1)
+		res.Count("queries_with_far_bounds", 1)
+		res.Set("pair_kinds", what)
+		if pn == "" && qerr != nil && ms.QueryErrNoData(qerr) {
+			act, qerr = ms.FromCS(nil), nil
+		}
+		w := h.describe()
+		w["start"], w["end"] = st.Format(time.RFC3339Nano), en.Format(time.RFC3339Nano)
+		w["expected_rows"] = exp.Dump(40)
+		if pn != "" || qerr != nil {
+			res.Violation(fmt.Sprintf("%s range [%s, %s] (%s): query failed: %v %s", h.Key(), st.Format(time.RFC3339), en.Format(time.RFC3339), what, qerr, pn), w)
+			continue
+		}
+		res.Count("rows_compared", int64(exp.N))
+		if diff := sameTable(act, exp); diff != "" {
+			w["actual_rows"] = act.Dump(40)
+			res.Violation(fmt.Sprintf("%s (%s) range [%s, %s] (%s): expected %d rows, got %d: %s", h.Key(), map[bool]string{true: "variable", false: "fixed"}[h.Variable],
+				st.Format(time.RFC3339), en.Format(time.RFC3339), what, exp.N, act.N, diff), w)
+		}
+	}
 	res.Count("queries_nonempty_expected", int64(nonEmpty))
 	res.Count("queries_empty_expected", int64(empty))
 	res.Set("timeframes", h.TF)
